@@ -11,6 +11,7 @@ import json
 import os
 import random
 import re
+import zlib
 import subprocess
 import sys
 import time
@@ -110,6 +111,12 @@ def parallel(jobs, fn):
                 import traceback
                 log("HARNESS ERROR in job", i, traceback.format_exc())
                 out[i] = {"harness_error": "%s: %s" % (type(e).__name__, e)}
+    # the deterministic edge schemas are part of the stated bound: one that protoc rejects (or that the generator's
+    # own ground truth disagrees with) is a defect of this harness, never a silent skip
+    for j, r in zip(jobs, out):
+        tag = j[0] if isinstance(j, tuple) and j and isinstance(j[0], str) else ""
+        if tag.startswith("edge:") and isinstance(r, dict) and r.get("skip") and r["skip"][0] in ("generator-invalid", "truth-mismatch"):
+            raise RuntimeError("edge schema %s is not usable: %s: %s" % (tag, r["skip"][0], r["skip"][1]))
     return out
 
 
@@ -414,7 +421,7 @@ def _c03_job(job) -> dict:
     tag, schema = job
     truth = gen.schema_truth(schema)
     res = {"tag": tag, "fails": [], "skip": None, "info": {}, "schema": schema}
-    r = gen.run_plugin_ex(schema.protos(), [], want_descriptor=True)
+    r = gen.run_plugin_ex(schema.protos(), [], want_descriptor=True, named=schema.named())
     try:
         if r.protoc_rejected:
             res["skip"] = ("generator-invalid", r.stderr[-400:])
@@ -464,7 +471,8 @@ def check_C03(seed: int, n: int) -> dict:
         jobs = []
         for i in range(n):
             s = seed * 100003 + i
-            jobs.append(("random", gen.gen_schema(s, "full", tricky_comments=(i % 6 == 5), risky_names=(i % 3 == 0))))
+            sc = gen.gen_schema(s, "full", tricky_comments=(i % 6 == 5), risky_names=(i % 3 == 0))
+            jobs.append(("random", (sc.roots_only() or sc) if i % 3 == 1 else sc))
         jobs += [("edge:" + tag, sc) for tag, sc in gen.edge_schemas()]
         results = parallel(jobs, _c03_job)
         for (tag, schema), res in zip(jobs, results):
@@ -812,7 +820,7 @@ def _c18_job(job) -> dict:
     res = {"tag": tag, "schema": schema, "fails": [], "skip": None, "notes": [], "compared": 0, "nontrivial": 0}
     per: Dict[str, dict] = {}
     for name, opts in active:
-        r = gen.run_plugin_ex(schema.protos(), opts)
+        r = gen.run_plugin_ex(schema.protos(), opts, named=schema.named())
         try:
             if r.protoc_rejected:
                 res["skip"] = ("generator-invalid", r.stderr[-400:])
@@ -958,10 +966,11 @@ def check_C18(seed: int, n: int) -> dict:
         jobs = []
         for i in range(n):
             s = seed * 100019 + i
-            jobs.append(("random", gen.gen_schema(s, "full", tricky_comments=False, risky_names=(i % 5 == 4),
-                                                 client_streaming=("none", False, True)[i % 3]), active, s ^ 0x5EED))
+            sc = gen.gen_schema(s, "full", tricky_comments=False, risky_names=(i % 5 == 4),
+                                client_streaming=("none", False, True)[i % 3])
+            jobs.append(("random", (sc.roots_only() or sc) if i % 2 == 1 else sc, active, s ^ 0x5EED))
         for tag, sc in gen.edge_schemas():
-            if tag in ("feature-cover", "wkt-rpc", "typing-name-message", "builtin-shadow", "wkt-in-map"):
+            if tag in ("feature-cover", "wkt-rpc", "typing-name-message", "builtin-shadow", "wkt-in-map", "cross-file-roots-only"):
                 jobs.append(("edge:" + tag, sc, active, seed))
         results = parallel(jobs, _c18_job)
         for job, res in zip(jobs, results):
@@ -1003,8 +1012,12 @@ def _underscore(p: str) -> bool:
 def _c13_job(job) -> dict:
     mode, style, packages, edges = job
     schema, refs, rpc_refs = gen.ref_schema(packages, edges, style)
+    if zlib.crc32(repr((mode, style, packages)).encode()) % 2:
+        # how the files are named on the command line is part of the input: every other job names only the files
+        # nothing imports (the referenced packages are then compiled because they are imported)
+        schema = schema.roots_only() or schema
     res = {"mode": mode, "style": style, "schema": schema, "skip": None, "fails": [], "pairs": sorted(set(edges)), "refs": 0}
-    r = gen.run_plugin_ex(schema.protos(), [])
+    r = gen.run_plugin_ex(schema.protos(), [], named=schema.named())
     try:
         if r.protoc_rejected:
             res["skip"] = ("generator-invalid", r.stderr[-400:])
@@ -1184,7 +1197,8 @@ def check_C13(seed: int, n: int) -> dict:
 # C11
 # --------------------------------------------------------------------------
 def _c11_job(job) -> dict:
-    tag, schema, rseed = job
+    tag, schema, rseed = job[:3]
+    options = list(job[3]) if len(job) > 3 else []
     rng = random.Random(rseed)
     truth = gen.schema_truth(schema)
     vg = ValueGen(rng, truth)
@@ -1221,7 +1235,7 @@ def _c11_job(job) -> dict:
                                 "error_status": rng.choice(["NOT_FOUND", "INVALID_ARGUMENT", "PERMISSION_DENIED", "UNAVAILABLE", "INTERNAL"])})
             services.append({"module": p["module"], "name": sname, "methods": methods, "precedence_method": rng.randint(0, 7)})
     res["services"] = len(services)
-    r = gen.run_plugin_ex(schema.protos(), [])
+    r = gen.run_plugin_ex(schema.protos(), options, named=schema.named())
     try:
         if r.protoc_rejected:
             res["skip"] = ("generator-invalid", r.stderr[-400:])
@@ -1231,7 +1245,8 @@ def _c11_job(job) -> dict:
             et, line = crash_signature(r.stderr)
             res["fails"].append(("plugin-crash:" + et, "plugin exited %d: %s" % (r.returncode, line)))
             return res
-        d = gen.run_child("grpc", r.out_dir, {"modules": module_list(truth), "services": services}, timeout=600)
+        d = gen.run_child("grpc", r.out_dir, {"modules": module_list(truth), "services": services,
+                                              "flavour": "pydantic" if "pydantic_dataclasses" in options else "std"}, timeout=600)
         if "child_error" in d or d.get("mode_error"):
             res["skip"] = ("harness-error", str(d.get("child_error") or d.get("mode_error"))[:500])
             return res
@@ -1276,6 +1291,15 @@ def check_C11(seed: int, n: int) -> dict:
             nserv += k
             jobs.append(("random", schema, s ^ 0xC11))
         jobs += [("edge:" + tag, sc, seed ^ 0xC11) for tag, sc in gen.edge_schemas() if tag in ("feature-cover", "wkt-rpc")]
+        # "every generated service": also the stubs / server bases generated under the other plugin options (the
+        # deterministic service schemas under every configuration, the first random ones under the pydantic one)
+        active = [c for c in CONFIGS if pydantic_available() or not c[0].endswith("pydantic")]
+        for cname, opts in active[1:]:
+            jobs += [("edge:" + tag + "@" + cname, sc, seed ^ 0xC11, opts) for tag, sc in gen.edge_schemas() if tag in ("feature-cover", "wkt-rpc")]
+        if pydantic_available():
+            jobs += [("random@pydantic", j[1], j[2], ["pydantic_dataclasses"]) for j in jobs[:max(1, n // 4)] if j[0] == "random"]
+        else:
+            col.skip("config:pydantic", "pydantic is not importable in /venv")
         results = parallel(jobs, _c11_job)
         shapes = set()
         services = 0
@@ -1301,7 +1325,7 @@ def check_C11(seed: int, n: int) -> dict:
                 if key in seen:
                     continue
                 seen.add(key)
-                col.fail(key, detail, text)
+                col.fail(key, ("[options %s] " % ",".join(job[3]) if len(job) > 3 and job[3] else "") + detail, text)
             if len(col.samples) < 3:
                 col.samples.append({"packages": schema.packages(), "services": res["services"], "calls": res["calls"],
                                     "checks": res["checks"], "failed": sorted({m for m, _ in res["fails"]})})
